@@ -64,7 +64,7 @@ class SpecMDP(TabularMarkovDecisionProcess):
         return self._dist((self.sl(ns), p) for ns, p in self.spec.Tall[i][b])
 
     def reward(self, s, a, ns):
-        return float(self.spec.R[self.s_of[s]][self.a_of[a]][self.s_of[ns]])
+        return float(self.spec.R[self.s_of[s]][self.a_of[a]].get(self.s_of[ns], 0))     # total: unlisted successors pay 0
 
     def actions(self, s):
         return tuple(self.al(a) for a in self.spec.acts[self.s_of[s]])
